@@ -168,6 +168,8 @@ class Ex:
                 return ("eq", recv, a[0])
             elif base in ("masked_select",) and len(a) == 1:
                 return recv
+            elif base in ("clone", "detach", "contiguous") and not a:
+                return recv          # same values; `clone` has fresh storage (`storage_of`), `detach` shares it
             elif base in ("expand_as",) and len(a) == 1:
                 return recv
             elif base == "tolist" and not a:
@@ -238,6 +240,10 @@ class Ex:
                                                    else ("var", "logPhi") for a in st.value.args]
                     continue
                 if f == "warnings.warn":
+                    continue
+                if isinstance(st.value.func, ast.Attribute) and st.value.func.attr.endswith("_") and \
+                        not st.value.func.attr.endswith("__") and st.value.func.attr != "masked_scatter_":
+                    self.expr(st.value, env)       # `x.op_(…)` as a statement: only the in-place write matters
                     continue
                 _bad(st, "call statement outside vocabulary")
             if isinstance(st, ast.Return):
@@ -423,11 +429,17 @@ def generate(repo, out_path):
     shifted = term = None
     summed = False
     ghq_writes = state_writes(fwd, "GaussHermiteQuadrature1D")
+    attr_reads = [n.attr for n in ast.walk(fwd) if isinstance(n, ast.Attribute) and isinstance(n.ctx, ast.Load)
+                  and isinstance(n.value, ast.Name) and n.value.id == "self"]
     for st in fwd.body:
         if isinstance(st, ast.Expr) and isinstance(st.value, ast.Constant):
             continue
         if _is_state_write_only(st):
             continue        # counted in `ghqForwardStateWrites`; a cast of the stored table is the identity on its exact values
+        if isinstance(st, ast.Assign) and len(st.targets) == 1 and isinstance(st.targets[0], ast.Attribute) and \
+                isinstance(st.targets[0].value, ast.Name) and st.targets[0].value.id == "self" and \
+                st.targets[0].attr not in attr_reads and not any(isinstance(x_, ast.Call) for x_ in ast.walk(st.value)):
+            continue        # stores a local value in an attribute this call never reads: counted as a state write, no value
         if isinstance(st, ast.Assign) and isinstance(st.targets[0], ast.Name):
             nm = st.targets[0].id
             if nm == "log_probs":
